@@ -139,6 +139,16 @@ def merge_result(data, context, result, state, output_path=None):
     output_path = output_path if output_path else state.get("OutputPath", "$")
     return apply_path(output, context, output_path)
 
+def enclosing_branch_id(branch_info_stack):
+    """
+    Given the "Branch" stack of an event that belongs to a Map Iterator or
+    Parallel Branch return the ID of the Map or Parallel state that encloses
+    the one on top of the stack, or None if that one is not nested.
+    """
+    if len(branch_info_stack) > 1:
+        return branch_info_stack[-2].get("ID")
+    return None
+
 class BranchMetadata:
     def __init__(self, context, timeout):
         """
@@ -732,6 +742,10 @@ class StateEngine(object):
         written and the terminal notification has been sent.
         """
         if execution_failed and execution_arn in self.branch_metadata:
+            # The execution has failed, so all of its branches are terminated.
+            for results in self.branch_metadata[execution_arn].results.values():
+                if "terminated" not in results:
+                    results["terminated"] = "0:" + str(len(results["results"]))
             self.check_pending_results(execution_arn)
 
     def update_execution_history(
@@ -913,6 +927,21 @@ class StateEngine(object):
                     self.event_dispatcher.acknowledge(event_id)
                 event_ids[i] = None
 
+    def branch_results_wound_up(self, all_branch_results, results):
+        """
+        The results of a Map or Parallel state have to be wound up if that
+        state, or a Map or Parallel state that it is nested in, has been
+        terminated. The results of the states that enclose a terminated
+        one, and of unrelated ones, are still live and must be left alone.
+        """
+        depth = 0
+        while results is not None and depth < 100:
+            if "terminated" in results:
+                return True
+            results = all_branch_results.get(results.get("parent"))
+            depth += 1
+        return False
+
     def check_pending_results(self, execution_arn):
         """
         Check the branch_results for the current execution. If any of them are
@@ -930,17 +959,16 @@ class StateEngine(object):
 
         """
         Because we *could* have nested Map/Parallel states and Tasks could fail
-        at any depth (requiring cancellation of tasks of an earlier
-        branch_results item) we must first check for terminated results over
-        the *whole* set of results for all nested branches. This unfortunately
-        requires this extra loop, but deeply nested Map/Parallel states are
-        unusual, so len(all_branch_results.values()) is generally small.
+        at any depth we check every set of results for this execution, but we
+        only wind up those that belong to a terminated Map/Parallel state or
+        to one nested inside it.
         """
-        has_terminated = any("terminated" in r for r in all_branch_results.values())
+        def wound_up(results):
+            return self.branch_results_wound_up(all_branch_results, results)
 
         results_pending = False
-        for results in all_branch_results.values():
-            if has_terminated:
+        for key, results in list(all_branch_results.items()):
+            if key in all_branch_results and wound_up(results):
                 result = results["results"]
                 event_ids = results["ids"]
 
@@ -976,18 +1004,25 @@ class StateEngine(object):
                         else:
                             results_pending = True
 
-        for results in all_branch_results.values():
-            event_ids = results["ids"]
+        wound_up_keys = [
+            key for key, results in all_branch_results.items() if wound_up(results)
+        ]
+        for key in wound_up_keys:
+            event_ids = all_branch_results[key]["ids"]
             #print("Acknowledging event_ids:")
             #print(event_ids)
             self.acknowledge_event_list(event_ids)
 
         if not results_pending:
-            #print("No results pending, deleting self.branch_metadata[execution_arn]")
-            del self.branch_metadata[execution_arn]
+            """
+            No results pending, so forget the results that have been wound up
+            and, when none are left, self.branch_metadata[execution_arn].
+            """
+            for key in wound_up_keys:
+                del all_branch_results[key]
 
-            #print("self.branch_metadata length:")
-            #print(len(self.branch_metadata))
+            if not all_branch_results:
+                del self.branch_metadata[execution_arn]
 
     def branch_has_terminated(self, state_type, context, id, timeout):
         """
@@ -1069,6 +1104,7 @@ class StateEngine(object):
                     "results": [None]*length,
                     "ids": [None]*length,  # Unacknowledged messages
                     "state": [None]*length,
+                    "parent": enclosing_branch_id(branch_info_stack),
                 }
 
             # Get the branch results for current execution and current state
@@ -3159,6 +3195,7 @@ class StateEngine(object):
                     "results": [None]*length,
                     "ids": [None]*length,  # Unacknowledged messages
                     "state": [None]*length,
+                    "parent": enclosing_branch_id(context_state["Branch"]),
                 }
 
             """
@@ -3237,6 +3274,42 @@ class StateEngine(object):
 
             # Parallel and Map states apply ResultPath to "raw input"
             data = branch_info["Input"]  # Get saved raw input
+
+            if error == "Task.Terminated" and self.branch_results_wound_up(
+                all_branch_results, branch_results
+            ):
+                """
+                Task.Terminated is how a cancelled Task or Wait in a branch
+                reports back. This Map/Parallel state, or one that it is nested
+                in, has already been terminated, so this is not a new failure
+                to be retried, caught or passed on to the enclosing states: we
+                just note that this branch has finished, in the results of this
+                state and of those enclosing states that are being wound up too,
+                and tidy up. The event will get acknowledged by the Task or
+                Wait state handler itself.
+                """
+                result[index] = "__TERMINATED__"
+                if previous_state_type == "Task" or previous_state_type == "Wait":
+                    event_ids[index] = None
+
+                # Only the branches/iterations that were started can be pending.
+                branch_results["terminated"] = str(start) + ":" + str(end)
+
+                # The item for this state has already been removed from the stack.
+                branch_info_stack = context_state.get("Branch", [])
+                for level in range(len(branch_info_stack) - 1, -1, -1):
+                    enclosing_info = branch_info_stack[level]
+                    enclosing_results = all_branch_results.get(enclosing_info.get("ID"))
+                    if (enclosing_results and "Index" in enclosing_info and
+                        self.branch_results_wound_up(
+                            all_branch_results, enclosing_results
+                        )):
+                        enclosing_results["results"][enclosing_info["Index"]] = "__TERMINATED__"
+                    else:
+                        break
+
+                self.check_pending_results(execution_arn)
+                return
 
             if error:
                 # Set range to terminate subsequent branches/iterations
